@@ -1170,3 +1170,67 @@ func (r *reportTB) Fatalf(format string, args ...any) {
 	}
 	vlib.ReportDirect(r.t, key, detail, map[string]interface{}{"cfg": r.cfg.String(), "players": fmt.Sprint(r.subset)})
 }
+
+// TestC17PlayersSweep: every number of players l = 2..32 (a defect confined to one value of l, such
+// as an integer that wraps at 21!, must not depend on what the generator happens to draw), with the
+// thresholds 1, 2, ⌈l/2⌉, l-1 and l, the first and the last qualified subset.
+func TestC17PlayersSweep(t *testing.T) {
+	defer vlib.Done()
+	ks, err := loadPool()
+	if err != nil {
+		t.Fatalf("SELFTEST-FAIL key pool: %v", err)
+	}
+	sub := "tssrsa/players-sweep"
+	ci := 0
+	n := int64(0)
+	for l := 2; l <= 32; l++ {
+		seen := map[int]bool{}
+		for _, k := range []int{1, 2, (l + 1) / 2, l - 1, l} {
+			if k < 1 || k > l || seen[k] {
+				continue
+			}
+			seen[k] = true
+			ci++
+			if ci%vlib.NShards != vlib.Shard {
+				continue
+			}
+			if !vlib.Thorough() && l > 12 && k != l && k != 2 && (l+k)%2 == 1 {
+				continue // quick: above 12 players every l keeps k = 2 and k = l, the other thresholds alternate
+			}
+			x := ci + vlib.Seed
+			c := rsaCfg{l: l, k: k, pk: ks[x%len(ks)], cache: x%2 == 0, blind: false, parallel: false,
+				padding: "pkcs1v15", hash: crypto.SHA256, saltMode: "equals-hash",
+				msg:      []byte(fmt.Sprintf("C17 players sweep l=%d k=%d", l, k)),
+				dealSeed: uint64(vlib.Seed)*977 + uint64(x), padSeed: uint64(x) + 3, blindSeed: uint64(x) + 5}
+			d, ok := dealDirect(t, c)
+			if !ok {
+				if t.Failed() {
+					return
+				}
+				continue
+			}
+			all := seqInts(l + 1)[1:]
+			// contiguous subsets have integer Lagrange coefficients whatever ∆ is; two scattered subsets
+			// (a deterministic shuffle) need the full divisibility of ∆ = l!
+			subsets := [][]int{all[:k], all[l-k:]}
+			for r := 0; r < 2; r++ {
+				rb := make([]byte, 2*l)
+				vlib.ExpandInto(rb, uint64(vlib.Seed)*7919+uint64(l)*131+uint64(k)*17+uint64(r))
+				perm := append([]int{}, all...)
+				for i := l - 1; i > 0; i-- {
+					j := (int(rb[2*i])<<8 | int(rb[2*i+1])) % (i + 1)
+					perm[i], perm[j] = perm[j], perm[i]
+				}
+				subsets = append(subsets, perm[:k])
+			}
+			for _, s := range subsets {
+				d.combineDirect(t, append([]int{}, s...), sub)
+				n++
+				if t.Failed() {
+					return
+				}
+			}
+		}
+	}
+	vlib.Exhaustive(sub, n, "l = 2..32 x thresholds {1,2,ceil(l/2),l-1,l} x {first, last, two scattered} qualified subsets (this shard)")
+}
